@@ -115,6 +115,39 @@ def confirm(src, pid, name):
         shutil.rmtree(wt, ignore_errors=True)
 
 
+def redemo(seed):
+    '''is the seed still demonstrable at the current /repo HEAD (fixes made since may have removed its trigger)?'''
+    import re
+
+    d = os.path.join(SEEDED, seed)
+    wt = tempfile.mkdtemp(prefix='vf-seedwt-')
+    os.rmdir(wt)
+    rc, out, err = sh(['git', '-C', '/repo', 'worktree', 'add', '--detach', wt, 'HEAD'])
+    assert rc == 0, err
+    try:
+        os.makedirs(os.path.join(wt, '_seed', '1'))
+        dm = os.path.join(wt, '_seed', '1', 'demo.py')
+        text = open(os.path.join(d, 'demo.py'), encoding='utf-8').read()
+        open(dm, 'wt', encoding='utf-8').write(re.sub(r'/tmp/wt/[CD]\d\d', wt, text))
+        rc0, _o0 = demo(wt, dm)
+        rc, out, err = sh(['patch', '-p1', '-s', '-i', os.path.join(d, 'patch.diff')], cwd=wt)
+        applies = rc == 0
+        rc1 = None
+        if applies:
+            rc1, _o1 = demo(wt, dm)
+        head = sh(['git', '-C', '/repo', 'rev-parse', '--short', 'HEAD'])[1].strip()
+        mfn = os.path.join(d, 'meta.json')
+        meta = json.load(open(mfn, encoding='utf-8'))
+        meta['redemo'] = {'repo_head': head, 'applies': applies, 'demo_without_change_rc': rc0, 'demo_with_change_rc': rc1,
+                          'still_demonstrable': bool(applies and rc0 == 0 and rc1 not in (0, None))}
+        json.dump(meta, open(mfn, 'wt', encoding='utf-8'), indent=1)
+        print(seed, meta['redemo'], flush=True)
+    finally:
+        sh(['git', '-C', '/repo', 'worktree', 'remove', '--force', wt])
+        shutil.rmtree(wt, ignore_errors=True)
+    return 0
+
+
 def run_scratch(seed, pids, tier):
     '''same as run() but on a scratch copy of /repo selected with VERIF_REPO (does not touch /repo)'''
     d = os.path.join(SEEDED, seed)
@@ -226,6 +259,10 @@ def main():
         seed = a[1]
         pids = a[2:] or [seed.split('-')[0]]
         return (run if a[0] == 'run' else run_scratch)(seed, pids, tier)
+    if a[0] == 'redemo':
+        for seed in (a[1:] or sorted(x for x in os.listdir(SEEDED) if os.path.isfile(os.path.join(SEEDED, x, 'patch.diff')))):
+            redemo(seed)
+        return 0
     if a[0] == 'table':
         return table()
     if a[0] == 'sweep':
